@@ -415,6 +415,9 @@ pub struct Merged {
     pub stats: BTreeMap<String, u64>,
     pub probes: BTreeMap<String, u64>,
     pub op_steps: BTreeMap<String, u64>,
+    /// runs that took more than 1.5 s of wall clock, and the slowest of them (milliseconds, run index)
+    pub slow_runs: u64,
+    pub slowest: (u64, i64),
     pub sched: BTreeSet<u64>,
     pub states: BTreeSet<u64>,
     pub nontrivial: BTreeSet<u64>,
@@ -483,6 +486,8 @@ pub fn drive(prop: &str, tier: Tier, master: u64, shards: u64, total: u64, hashe
         stats: BTreeMap::new(),
         probes: BTreeMap::new(),
         op_steps: BTreeMap::new(),
+        slow_runs: 0,
+        slowest: (0, 0),
         sched: BTreeSet::new(),
         states: BTreeSet::new(),
         nontrivial: BTreeSet::new(),
@@ -505,6 +510,14 @@ pub fn drive(prop: &str, tier: Tier, master: u64, shards: u64, total: u64, hashe
                 last_seen[k as usize] = Instant::now();
                 if let Some(rest) = l.strip_prefix("S ") {
                     last_start[k as usize] = rest.trim().parse().unwrap_or(i64::MIN);
+                } else if let Some(rest) = l.strip_prefix("W ") {
+                    let mut it = rest.split_whitespace();
+                    let idx: i64 = it.next().and_then(|x| x.parse().ok()).unwrap_or(0);
+                    let ms: u64 = it.next().and_then(|x| x.parse().ok()).unwrap_or(0);
+                    m.slow_runs += 1;
+                    if ms > m.slowest.0 {
+                        m.slowest = (ms, idx);
+                    }
                 } else if let Some(rest) = l.strip_prefix("V ") {
                     if let Ok(v) = serde_json::from_str::<Value>(rest) {
                         m.violations.push(v);
@@ -595,7 +608,7 @@ pub fn check<C: Campaign>(c: &C, a: &CheckArgs) -> i32 {
     let prop = c.prop();
     let total = a.runs_override.unwrap_or(c.runs(a.tier));
     println!("CHECK property={} tier={} seed={} runs={} shards={}", prop, a.tier.name(), a.seed, total, a.shards);
-    let mut m = drive(prop, a.tier, a.seed, a.shards, total, false, 90);
+    let mut m = drive(prop, a.tier, a.seed, a.shards, total, false, 240);
     let (isolated_run, isolated_violations) = drive_isolated(c, Duration::from_secs(8));
     m.violations.extend(isolated_violations);
     let wall = t0.elapsed().as_secs_f64();
@@ -704,6 +717,8 @@ pub fn check<C: Campaign>(c: &C, a: &CheckArgs) -> i32 {
             "distinct_states": m.states.len(),
             "counters": m.stats,
             "probes_hit_in_runs": m.probes,
+            "slow_runs": {"runs_over_1500_ms": m.slow_runs, "slowest_ms": m.slowest.0, "slowest_run_index": m.slowest.1, "stall_limit_s": 240,
+                          "note": "wall-clock figures: informational only, they never enter a verdict except through the stall limit"},
             "instruction_reach": {
                 "measure": "how often each of the runtime's instructions was stepped by this check (all shards); an instruction at 0 is outside this check's workload",
                 "steps_by_instruction": m.op_steps,
